@@ -29,6 +29,8 @@ VERIF = os.path.dirname(os.path.dirname(os.path.abspath(__file__)))
 REPO = os.environ.get("VERIF_REPO", "/repo")
 REPO_PKG = os.path.join(os.path.realpath(REPO), "partitura") + os.sep
 NSHARDS = int(os.environ.get("VERIF_SHARDS", "16"))
+# mutation experiments redirect evidence and violation replays away from /verif
+SCRATCH = os.environ.get("VERIF_SCRATCH") or None
 
 
 # --------------------------------------------------------------------------
@@ -460,7 +462,7 @@ def _replay_dir(prop):
 
 
 def write_replay(prop, subname, bucket, spec, discs, tier, vseed, prefix="violation"):
-    d = _replay_dir(prop)
+    d = _replay_dir(prop) if SCRATCH is None else os.path.join(SCRATCH, "replays", prop)
     os.makedirs(d, exist_ok=True)
     h = hashlib.sha256((subname + "|" + bucket).encode()).hexdigest()[:10]
     path = os.path.join(d, "%s-%s.json" % (prefix, h))
@@ -665,8 +667,9 @@ def run_property(modname, tier, vseed, only=None):
         "wall_s": round(wall, 2),
         "violations": len(violations),
     }
-    os.makedirs(os.path.join(VERIF, "evidence"), exist_ok=True)
-    evpath = os.path.join(VERIF, "evidence", prop + ".json")
+    evdir = os.path.join(VERIF, "evidence") if SCRATCH is None else os.path.join(SCRATCH, "evidence")
+    os.makedirs(evdir, exist_ok=True)
+    evpath = os.path.join(evdir, prop + ".json")
     with open(evpath, "w") as f:
         f.write(dumps(ev, indent=1))
     _validate_evidence(evpath, harness_errors)
